@@ -123,3 +123,22 @@ CHECKS["C04"] = {
         "known finding (ThreadsafeForwardingResult drops failfast set on the wrapper)." + TRUSTED
     ),
 }
+
+CHECKS["C08"] = {
+    "technique": "typestate call counter on exceptional CFG (TypeError-edge sensitive) + table agreement + duck-type conformance",
+    "text": (
+        "Static forwarding rules for TestResultDecorator, Tagger, MultiTestResult, ExtendedToOriginalDecorator and "
+        "TestByTestResult: a call counter explored over each method's exceptional CFG shows exactly one forward / "
+        "dispatch / accepted delivery on every returning path (a first attempt that leaves through its TypeError edge "
+        "counts as rejected), with every parameter passed through; the set of target methods reachable from each "
+        "outcome equals the documented degradation table, so no failing outcome can reach a passing method; attribute "
+        "uses on reported test objects are checked against the interface common to TestCase and PlaceHolder; "
+        "TestByTestResult has one callback per stopTest with all six fields and tags captured before the pop. "
+        "Per-method invariants compose over every history and every adapter stack."
+    ),
+    "note": (
+        "Text contained in synthetic exceptions is not decided. Assumes a TypeError from the details= attempt is a "
+        "signature rejection. Two sites of one genuine defect are recorded as known findings (PlaceHolder + 2.6-style "
+        "result + unexpected success)." + TRUSTED
+    ),
+}
